@@ -298,7 +298,7 @@ def main():
     ap.add_argument("--tier", default="quick"); ap.add_argument("--jobs", type=int, default=16)
     ap.add_argument("--only")
     a = ap.parse_args()
-    n = 200_000 if a.tier == "quick" else 2_000_000
+    n = 200_000 if a.tier == "quick" else 6_000_000
     nz = 10_000_000 if a.tier == "quick" else 40_000_000
     G = grid()
     tasks = []
